@@ -30,6 +30,8 @@ Calibration
 * If the member built alone cannot be built or computed (NumPy/pandas/dask refuse the program for this input, e.g.
   `object + 1`), the case is outside the statement (`rejected`); only failures that appear *because of the siblings*
   are reported.
+* Results that cannot be compared with == (da.full_like(x, None) computes to toolz.curry objects whose == raises) are counted
+  (`uncomparable_results`), never judged (thorough seed 0 gave two such alarms: the comparator raised, not dask).
 * Equal values with another dtype are different results (the statement says "the same value"; dtype and element types
   are part of the comparison discipline of every collection kind), -0.0 == 0.0 and NaN == NaN are equal.
 """
@@ -58,11 +60,11 @@ RULE = ("cases = (input family, member list); member 0 = (kind, variant, program
         "near-identical; distinct = distinct case description.")
 ASSUMPTIONS = ["sync scheduler", "a collection built and computed while no other generated collection is alive defines its value",
                "pyarrow stand-in (pandas-backed dataframes, convert-string off)"]
-BUDGET = {"quick": 50, "thorough": 560}
+BUDGET = {"quick": 100, "thorough": 560}
 FLOORS = {
-    "quick": {"evaluations": 1350, "distinct_nontrivial": 1000,
-              "counters": {"together_computes": 5200, "results_compared": 14500, "built_alone": 3600,
-                           "alone_vs_isolated_compared": 3600, "shared_keys_compared": 5500},
+    "quick": {"evaluations": 900, "distinct_nontrivial": 680,
+              "counters": {"together_computes": 3500, "results_compared": 9700, "built_alone": 2400,
+                           "alone_vs_isolated_compared": 2400, "shared_keys_compared": 3600},
               "max_skipped_fraction": 0.15},
     "thorough": {"evaluations": 9000, "distinct_nontrivial": 6500,
                  "counters": {"together_computes": 34000, "results_compared": 95000, "built_alone": 24000,
@@ -218,7 +220,7 @@ def _progs(kind, fam, rng):
 
 def cases(tier, seed):
     rng = random.Random(seed * 7727 + 13)
-    n = 3000 if tier == "quick" else 20000
+    n = 2000 if tier == "quick" else 20000
     fams = [f for f, w in FAMILY_WEIGHTS for _ in range(w)]
     for _ in range(n):
         fam = rng.choice(fams)
@@ -452,8 +454,18 @@ def differs(a, b):
     """None when two results are the same value, else (symptom, message)"""
     try:
         return _differs(a, b)
-    except Exception as ex:  # noqa: BLE001  values of unlike kinds that cannot even be compared are different values
-        return "type", "%s vs %s (%s)" % (type(a).__name__, type(b).__name__, type(ex).__name__)
+    except Exception as ex:  # noqa: BLE001
+        if type(a) is not type(b):
+            return "type", "%s vs %s (%s)" % (type(a).__name__, type(b).__name__, type(ex).__name__)
+        # same type but == itself fails (e.g. results holding toolz.curry objects with array arguments): no verdict
+        try:
+            import pickle
+
+            if pickle.dumps(a) == pickle.dumps(b):
+                return None
+        except Exception:  # noqa: BLE001
+            pass
+        return "uncomparable", "%s values cannot be compared (%s)" % (type(a).__name__, type(ex).__name__)
 
 
 def _differs(a, b):
@@ -565,6 +577,9 @@ def run_case(case, ctx):
 
         def report(i, facet, d, other=None):
             """one label per affected member and case: the first facet that shows it"""
+            if d[0] == "uncomparable":  # Calibration: never a verdict
+                ctx.count("uncomparable_results")
+                return
             if i in reported:
                 return
             reported.add(i)
@@ -661,6 +676,9 @@ def _shared_keys(ctx, cols, kinds, fam, tags, reported):
                     continue
                 ctx.count("shared_keys_compared")
                 d = differs(vi, vj)
+                if d and d[0] == "uncomparable":
+                    ctx.count("uncomparable_results")
+                    continue
                 if d and i not in reported and j not in reported:
                     reported.update((i, j))
                     ctx.violation("shared-key-with-different-values:%s:%s" % ("+".join(sorted({kinds[i], kinds[j]})), fam),
